@@ -163,7 +163,7 @@ def install(ctx, repo, probes):
 
 
 def run_case(ctx, repo, case):
-    repo.set_mode(case["mode"])
+    repo.set_mode(case["mode"], case)
     try:
         p = repo.tp(case["p"])
         if case["op"] == "add":
@@ -264,6 +264,28 @@ def workload(ctx, repo):
                             ctx.case = case
                             ctx.ev("cases.sweep")
                             run_case(ctx, repo, case)
+    # long hauls: month counts of every magnitude up to whole 400-year
+    # cycles (and just beside them) from the clamp-prone start days
+    if ctx.worker == 0:
+        for mode in R.MODES:
+            y0 = R.days_before_year(mode, 2000)
+            for rd in (y0 + 28, y0 + 29, y0 + 30, y0 + 59, y0 + 89, y0 + 14):
+                for rep in gen.REPS:
+                    for n in (120, 1199, 1200, 1201, 4799, 4800, 4801, 4806,
+                              4812, 9600, 9601):
+                        for s in (1, -1):
+                            kw = gen.date_kwargs(mode, rep, rd)
+                            kw.update({"hour_of_day": 6, "minute_of_hour": 7,
+                                       "second_of_minute": 8})
+                            if (n + rd) % 2:
+                                case = {"op": "add_months", "mode": mode,
+                                        "p": kw, "n": s * n}
+                            else:
+                                case = {"op": "add", "mode": mode, "p": kw,
+                                        "d": {"months": s * n}}
+                            ctx.case = case
+                            ctx.ev("cases.longhaul")
+                            run_case(ctx, repo, case)
     n = 5000 if ctx.tier == "quick" else 20000
     for k in range(n):
         mode = rng.choice(R.MODES) if k % 2 else "gregorian"
@@ -271,7 +293,9 @@ def workload(ctx, repo):
         p = gen.rand_tp(rng, mode, integral=integral, bias=0.75)
         if k % 7 == 0:
             case = {"op": "add_months", "mode": mode, "p": p,
-                    "n": rng.choice([0, 1, -1, 12, -12, rng.randint(-40, 40)])}
+                    "n": rng.choice([0, 1, -1, 12, -12, rng.randint(-40, 40),
+                                     rng.choice((1, -1)) *
+                                     int(10 ** rng.uniform(1.5, 4.1))])}
         else:
             case = {"op": rng.choice(("add", "radd", "sub")), "mode": mode,
                     "p": p, "d": gen.rand_nominal_dur(rng)}
